@@ -999,7 +999,7 @@ func main() {
 			"a field has exactly one role; timestamps are within the EventTime range (uint32 seconds); each SerializeRecord call gets a fresh record (a second serialization of the same record is C12)",
 		},
 		Enumerate:        enumerate,
-		QuickDeadline:    110 * time.Second,
+		QuickDeadline:    300 * time.Second,
 		ThoroughDeadline: 45 * time.Minute,
 	})
 }
